@@ -56,8 +56,9 @@ CHECKS.update({
                      "positions, both instruments' asks/bids and equity are compared exactly after every step"),
     "C16": dict(technique=DERIBIT_TECH, design="3/C16",
                 text="TLC explores holdings of a call and a put over underlying paths around the strike, expiries on / between / off "
-                     "hourly bars and before/after the window, delisted instruments, on three bar grids (hourly alone, minutely with a "
-                     "minutely co-market, only hours with rows); each behaviour becomes synthetic market data and a scripted strategy "
+                     "hourly bars and before/after the window, delisted instruments, on five bar grids (hourly alone, minutely with a "
+                     "minutely co-market, only hours with rows, a co-market resampled to 15-minute bars, the option market alone on a "
+                     "two-hour grid with decoy books in the hours between); each behaviour becomes synthetic market data and a scripted strategy "
                      "run through the real Actuator; Deliver/Expired records, balance and positions per bar and trade rejection on "
                      "closed bars are compared with the spec"),
 })
@@ -116,8 +117,8 @@ CHECKS["C08"] = dict(technique=UNI_TECH, design="3/C08",
          "range, never above the single-position share and equal to volume x fee rate x path fraction x own/(pool+own) for a single "
          "position, with the path starting at the previous bar's close whatever was written in the bar (DEV switches for the two "
          "deviations); every behaviour (all (previous close, close) pairs over ticks on, next to and far from the range bounds, pool "
-         "liquidity 0 / L / 1000L, unrelated writes and swaps in the same bar, positions lent out and returned, integer and float tick "
-         "columns) is run through the real Actuator - one in five on a resampled 5-minute grid, each bar supplied as five 1-minute rows, so "
+         "liquidity 0 / L / 1000L, unrelated writes and swaps in the same bar - in on_bar and, after the bar's update, in after_bar -, "
+         "positions lent out and returned, integer and float tick columns) is run through the real Actuator - one in five on a resampled 5-minute grid, each bar supplied as five 1-minute rows, so "
          "that the aggregation rules of the data layer are in the loop - and the per-bar pending deltas are compared with the spec")
 CHECKS["C09"] = dict(technique=UNI_TECH, design="3/C09",
     text="MC_UniLp steps a token0-is-quote pool and its mirror (ticks negated, ranges mirrored, volumes swapped) with the same "
@@ -151,7 +152,7 @@ CHECKS["C14"] = dict(
          "on 1-minute bars and on resampled 5- and 60-minute bars, where the window is the span of time SqueethTwap!TwapWindow denotes; "
          "one LP kind carries uncollected fees")
 
-CROSS_TECH = ("TLA+ specs of the wallet (Wallet.tla / MC_Wallet) and of every market (UniLp.tla, Aave.tla, Squeeth.tla, Deribit.tla, GmxV1.tla, GmxV2.tla) carry the property's "
+CROSS_TECH = ("TLA+ specs of the wallet (Wallet.tla / MC_Wallet, MC_WalletSwap for Broker.swap_by_from / swap_by_to) and of every market (UniLp.tla, Aave.tla, Squeeth.tla, Deribit.tla, GmxV1.tla, GmxV2.tla) carry the property's "
               "clauses as invariants / action properties, model-checked by TLC (BFS + simulation, DEV switches per market); TLC "
               "behaviours replayed into the real markets under a real Broker (and through the real Actuator where bars matter), the "
               "property's clauses decided on the real objects after every step (harness/cross.py orchestrates the legs: wallet, uniswap, aave, squeeth, deribit, gmx)")
@@ -165,7 +166,8 @@ CHECKS["C01"] = dict(technique=CROSS_TECH, design="3/C01",
 CHECKS["C03"] = dict(technique=CROSS_TECH, design="3/C03",
     text="TLC checks on every transition of every market specification that net value does not rise beyond wallet dust, that Uniswap "
          "liquidity and Aave operations conserve it up to dust, that swaps lose the reported fee, that no holding is negative and no "
-         "operation pays out more than held (amount alphabets incl. 0, exact holding, holding x (1 +- eps), oversized, None); each "
+         "operation pays out more than held (amount alphabets incl. 0, exact holding, holding x (1 +- eps), oversized, None; wallet swaps at "
+         "two price vectors and fee rates 0 / 0.003 / 0.5 / 1); each "
          "behaviour is replayed and the same clauses are decided on the real account (net value before/after every accepted or raised "
          "call on the frozen status, signs of every holding, accept/reject of over-redemptions)")
 CHECKS["C04"] = dict(technique=CROSS_TECH, design="3/C04",
